@@ -31,10 +31,21 @@ def shards(tier, seed):
     return [{"isa": n} for n in visa.all_names() if "wasm" not in n and "dwarf" not in n]
 
 
-def load_task(I, buf):
+def load_task(I, buf, layout=None):
+    """layout: offsets at which the image is split into separate memory objects (written back to front, so that they are
+    not merged): the same bytes at the same addresses, as a loader that maps a file piece by piece leaves them"""
     from amoco.system.core import load_program
 
     t = load_program(buf, cpu=I.cpu)
+    if layout:
+        from amoco.system.memory import MemoryMap
+
+        cuts = sorted(set(x for x in layout if 0 < x < len(buf)))
+        edges = [0] + cuts + [len(buf)]
+        mm = MemoryMap()
+        for lo, hi in reversed(list(zip(edges, edges[1:]))):
+            mm.write(lo, buf[lo:hi])
+        t.state.mmap = mm
     return t
 
 
@@ -54,7 +65,7 @@ def expected_blocks(ins, k):
     return out
 
 
-def check_buffer(I, buf, starts, mode, e):
+def check_buffer(I, buf, starts, mode, e, layout=None):
     """returns list of (bucket, detail), stats"""
     from amoco.sa import lsweep
     from amoco import cfg
@@ -65,7 +76,7 @@ def check_buffer(I, buf, starts, mode, e):
     I.set_mode(mode, e)
     try:
         try:
-            t = load_task(I, buf)
+            t = load_task(I, buf, layout)
             z = lsweep(t)
             psz = I.cpu.PC().size
             with visa.time_guard(30):
@@ -79,6 +90,25 @@ def check_buffer(I, buf, starts, mode, e):
                 return fails, stats
             return [(I.short + ":" + b_, repr(x))], stats  # a crash of the sweep / fetch machinery itself is reported
         stats["instr"] = len(ins)
+        # (a0) the sweep over the task's memory goes as far as the decoder goes over the bytes themselves
+        ref_addrs = []
+        try:
+            I.reset_decoder()
+            q = 0
+            ml = I.d.maxlen
+            while q < len(buf):
+                j_ = I.decode(buf[q: q + ml], guard=5)
+                if j_ is None or j_.length < 1:
+                    break
+                ref_addrs.append(q)
+                q += j_.length
+        except (Exception, visa.HarnessTimeout):
+            ref_addrs = None
+            I.reset_decoder()
+        if ref_addrs is not None and [int(i.address) for i in ins] != ref_addrs:
+            got_ = [int(i.address) for i in ins]
+            k_ = next((n_ for n_, (x_, y_) in enumerate(zip(got_, ref_addrs)) if x_ != y_), min(len(got_), len(ref_addrs)))
+            fails.append(("%s:sweep-differs-from-bytes%s" % (I.short, ":split-image" if layout else ""), "sweep of the task yields %d instructions, decoding the bytes %d; first difference at index %d (%s vs %s); layout %r" % (len(got_), len(ref_addrs), k_, got_[k_: k_ + 1], ref_addrs[k_: k_ + 1], layout)))
         # (a) consecutive instructions, bytes = memory
         pos = 0
         for i in ins:
@@ -245,8 +275,14 @@ def run_shard(shard, tier, seed):
         if len(buf) < 2:
             return
         starts = [rnd.randrange(0, 1000) for _ in range(rnd.randrange(1, 9))]
-        case = dict(isa=I.name, mode=mode, endian=e, buf=buf.hex(), starts=starts)
-        fails, stats = check_buffer(I, buf, starts, mode, e)
+        layout = None
+        if rnd.random() < 0.3:
+            p0 = rnd.randrange(0, len(buf))
+            layout = sorted(set([p0] + [min(len(buf) - 1, p0 + rnd.randrange(1, 4) * (j + 1)) for j in range(rnd.randrange(0, 4))]))
+        case = dict(isa=I.name, mode=mode, endian=e, buf=buf.hex(), starts=starts, layout=layout)
+        fails, stats = check_buffer(I, buf, starts, mode, e, layout)
+        if layout:
+            part.count("images-split-into-several-memory-objects")
         part.case(case, stats["inner"] + stats["swallow"] + stats["adjacent"] > 0, dict(isa=I.short, buf=buf.hex()[:80], starts=starts))
         for k, v in stats.items():
             part.count(k, v)
@@ -265,7 +301,7 @@ _ISA = {}
 
 def replay(case):
     I = _ISA.get(case["isa"]) or _ISA.setdefault(case["isa"], visa.load(case["isa"]))
-    fails, _ = check_buffer(I, bytes.fromhex(case["buf"]), case["starts"], case["mode"], case["endian"])
+    fails, _ = check_buffer(I, bytes.fromhex(case["buf"]), case["starts"], case["mode"], case["endian"], case.get("layout"))
     want = case.get("bucket")
     for b, d in fails:
         if want is None or b == want:
